@@ -1250,6 +1250,12 @@ class _C20St(SerializationStrategy):
         return v.isoformat()
     def deserialize(self, v):
         return datetime.date.fromisoformat(v)
+class _C20Win(NamedTuple):
+    name: str
+    size: List[int]
+@dataclass(frozen=True)
+class _C20Pal:
+    colors: List[str]
 class CDS(Dialect):
     serialization_strategy = {datetime.date: {'deserialize': _c20_de}, float: {'deserialize': float}}
 """
@@ -1261,7 +1267,10 @@ C20_FIELDS = ["a: int = 1", "n: Optional[int] = None", "s: str = 'x'", "d: datet
               "dm: datetime.date = field(default=datetime.date(2020, 1, 2), metadata={'serialization_strategy': {'deserialize': _c20_de}})",
               "ds: datetime.date = field(default=datetime.date(2020, 1, 2), metadata={'serialize': _c20_ser})",
               "dst: datetime.date = field(default=datetime.date(2020, 1, 2), metadata={'serialization_strategy': _C20St()})",
-              "ld: List[datetime.date] = field(default_factory=list)"]
+              "ld: List[datetime.date] = field(default_factory=list)",
+              # defaults whose class is hashable while the value is not (a list somewhere inside), and unhashable Annotated metadata
+              "tl: Tuple[List[int], List[int]] = ([1, 2], [3])", "ntl: _C20Win = _C20Win('main', [640, 480])", "fz: _C20Pal = _C20Pal(['red'])",
+              "am: Annotated[int, {'k': [1]}] = 1"]
 
 
 def c20_task(payload):
